@@ -47,10 +47,13 @@ Definition probe_conforms (n slack jitter since_inbound : Z) : bool :=
 Definition ideal_tick (P start x : Z) : Z :=
   if x <=? start then start + P else start + P * ((x - start + P - 1) / P).
 
-(* an observed return instant is the noticing tick, up to the jitter of the inputs and the delay
-   (slack) of the tick itself *)
+(* an observed return instant: never before the timeout has passed since the latest refresh (up to
+   the jitter of the inputs; no slack on this side), and not later than the noticing tick of the
+   polling grid plus the delay (slack) with which a tick may be delivered.  A tick of the grid that
+   is itself delivered late may be the one that notices: the wait then returns between two grid
+   instants, which is why the lower bound is the timeout and not the grid. *)
 Definition tick_conforms (T jitter slack start last ret : Z) : bool :=
   let P := period T in
   (0 <? P)
-  && (ideal_tick P start (last + T - jitter) - jitter <=? ret)
+  && (last + T - jitter <=? ret)
   && (ret <=? ideal_tick P start (last + T + jitter) + slack).
